@@ -320,9 +320,11 @@ func (s *sessionController) syncSessionExts() error {
 func (s *sessionController) onEnterLoadSessionCheck() {
 	uAssert(!s.locked, "tls: LoadSessionCoordinator.onEnterLoadSessionCheck failed: session is set and locked, no call to loadSession is allowed")
 	switch s.loadSessionTracker {
-	case UtlsAboutToCall, NeverCalled:
+	case UtlsAboutToCall, NeverCalled, CalledByGoTLS:
+		// CalledByGoTLS: the hello is built by crypto/tls' own code path, which loads the
+		// session again on every handshake of the connection (renegotiation).
 		s.callingLoadSession = true
-	case CalledByULoadSession, CalledByGoTLS:
+	case CalledByULoadSession:
 		panic("tls: LoadSessionCoordinator.onEnterLoadSessionCheck failed: you must not call loadSession() twice")
 	default:
 		panic("tls: LoadSessionCoordinator.onEnterLoadSessionCheck failed: unimplemented state")
@@ -335,7 +337,7 @@ func (s *sessionController) onEnterLoadSessionCheck() {
 func (s *sessionController) onLoadSessionReturn() {
 	uAssert(s.callingLoadSession, "tls: LoadSessionCoordinator.onLoadSessionReturn failed: it's not loading sessions, perhaps this function is not being called by loadSession.")
 	switch s.loadSessionTracker {
-	case NeverCalled:
+	case NeverCalled, CalledByGoTLS:
 		s.loadSessionTracker = CalledByGoTLS
 	case UtlsAboutToCall:
 		s.loadSessionTracker = CalledByULoadSession
@@ -351,7 +353,7 @@ func (s *sessionController) shouldLoadSessionWriteBinders() bool {
 	uAssert(s.callingLoadSession, "tls: shouldWriteBinders failed: LoadSessionCoordinator isn't loading sessions, perhaps this function is not being called by loadSession.")
 
 	switch s.loadSessionTracker {
-	case NeverCalled:
+	case NeverCalled, CalledByGoTLS:
 		return true
 	case UtlsAboutToCall:
 		return false
